@@ -359,15 +359,22 @@ func c18PointExpo[N int64 | float64](dps []metricdata.ExponentialHistogramDataPo
 // c18Data renders resource metrics (as seen by a cumulative ManualReader) as the S/I/P groups of an e2e line.
 func c18Data(rm *metricdata.ResourceMetrics, withEx bool) string {
 	sms := append([]metricdata.ScopeMetrics{}, rm.ScopeMetrics...)
+	// scope order in ResourceMetrics is a Go map order: canonical order = by the whole scope identity
+	sid := func(sm metricdata.ScopeMetrics) string {
+		return fmt.Sprintf("S %s %s %s %s", vHex(sm.Scope.Name), vHex(sm.Scope.Version), vHex(sm.Scope.SchemaURL), c18SetKVs(sm.Scope.Attributes))
+	}
 	sort.Slice(sms, func(i, j int) bool {
 		if sms[i].Scope.Name != sms[j].Scope.Name {
 			return sms[i].Scope.Name < sms[j].Scope.Name
 		}
-		return sms[i].Scope.Version < sms[j].Scope.Version
+		if sms[i].Scope.Version != sms[j].Scope.Version {
+			return sms[i].Scope.Version < sms[j].Scope.Version
+		}
+		return sid(sms[i]) < sid(sms[j])
 	})
 	var parts []string
 	for _, sm := range sms {
-		parts = append(parts, fmt.Sprintf("S %s %s", vHex(sm.Scope.Name), vHex(sm.Scope.Version)))
+		parts = append(parts, sid(sm))
 		for _, m := range sm.Metrics {
 			dt := "?"
 			var pts []string
@@ -457,6 +464,10 @@ func c18ParseData(res []attribute.KeyValue, groups [][]string) *metricdata.Resou
 			sm := &rm.ScopeMetrics[len(rm.ScopeMetrics)-1]
 			sm.Scope.Name = vUnhex(g[1])
 			sm.Scope.Version = vUnhex(g[2])
+			if len(g) >= 5 {
+				sm.Scope.SchemaURL = vUnhex(g[3])
+				sm.Scope.Attributes = attribute.NewSet(c18ParseKVs(g[4])...)
+			}
 		case "I":
 			sm := &rm.ScopeMetrics[len(rm.ScopeMetrics)-1]
 			m := metricdata.Metrics{Name: vUnhex(g[2]), Unit: vUnhex(g[3]), Description: vUnhex(g[4])}
@@ -509,7 +520,7 @@ func c18ParseData(res []attribute.KeyValue, groups [][]string) *metricdata.Resou
 	return rm
 }
 
-// c18Opts builds exporter options from the flag string "<legacy><nounits><nosuffix><noscope><notarget><resconst>"
+// c18Opts builds exporter options from the flag string "<legacy><nounits><nosuffix><noscope><notarget><resconst 0|1|2|3>"
 // (the legacy flag is applied by the caller through c18SetScheme) and the namespace token.
 func c18Opts(flags string, nsTok string) []Option {
 	var opts []Option
@@ -526,8 +537,14 @@ func c18Opts(flags string, nsTok string) []Option {
 		if flags[4] == '1' {
 			opts = append(opts, WithoutTargetInfo())
 		}
-		if flags[5] == '1' {
+		switch flags[5] {
+		case '1':
 			opts = append(opts, WithResourceAsConstantLabels(func(attribute.KeyValue) bool { return true }))
+		case '2':
+			opts = append(opts, WithResourceAsConstantLabels(attribute.NewDenyKeysFilter("r.a", "service.name")))
+		case '3':
+			// a filter that rejects everything: resourceKeyVals stays empty and is recomputed on every scrape
+			opts = append(opts, WithResourceAsConstantLabels(func(attribute.KeyValue) bool { return false }))
 		}
 	}
 	if nsTok != "-" {
@@ -571,4 +588,12 @@ func c18Gather(c prometheus.Collector) (res string) {
 		return e
 	}
 	return e + " | " + first
+}
+
+// c18ResFlag draws the 6th flag: 0 = no WithResourceAsConstantLabels, 1 = accept-all filter, 2 = deny-keys filter, 3 = reject-all.
+func c18ResFlag(r *vRand) int {
+	if r.Intn(4) != 0 {
+		return 0
+	}
+	return vPick(r, []int{1, 1, 2, 2, 3})
 }
